@@ -30,6 +30,7 @@ type Facts struct {
 	fi       map[*ssa.Function]*fnInfo
 	funcVals map[ssa.Value][]*ssa.Function // memo for function-value resolution
 	argsOf   map[*ssa.Parameter][]ssa.Value
+	sumMemo  map[*ssa.Function]*calleeSummary
 	rootType map[string]string          // "fn/var" root token of an access path -> typed rendering "<T>" / "<#i T>"
 	fldStore map[*types.Var][]ssa.Value // function-typed values stored into struct fields (module-wide, field-based)
 }
@@ -737,7 +738,7 @@ func (f *Facts) AtomsAt(at ssa.Instruction) []Atom {
 		}
 		out = append(out, a)
 	}
-	return out
+	return f.expandAtoms(out)
 }
 
 func (f *Facts) AtomsAtBlock(b *ssa.BasicBlock) []Atom {
@@ -911,4 +912,262 @@ func (f *Facts) T(p string) string {
 		}
 		return tok
 	})
+}
+
+// ---------------------------------------------------------------------------
+// Callee guard summaries: a guard that was moved into a helper still counts.
+// If a path tested the result of a module function g - `if err := g(x); err != nil { return }`, `if !ok(x) {...}` -
+// then on the passing side every atom that holds on all success returns of g (nil error / true) holds too,
+// with g's parameters replaced by the arguments of the call. Summaries are intersections over g's own
+// success paths (themselves expanded, two levels deep).
+// ---------------------------------------------------------------------------
+
+type calleeSummary struct {
+	onSuccess, onFailure []Atom // typed atoms over the callee's parameter renderings
+	paramRoot            []string
+	ambiguous            bool
+}
+
+func (f *Facts) summaryOf(g *ssa.Function, depth int) *calleeSummary {
+	if f.sumMemo == nil {
+		f.sumMemo = map[*ssa.Function]*calleeSummary{}
+	}
+	if s, ok := f.sumMemo[g]; ok {
+		return s
+	}
+	s := &calleeSummary{}
+	f.sumMemo[g] = s // cut recursion
+	if g.Blocks == nil || depth > 2 {
+		s.ambiguous = true
+		return s
+	}
+	seen := map[string]bool{}
+	for _, p := range g.Params {
+		f.path(p) // registers the root rendering
+		r := f.T(p.Parent().Name() + "/" + p.Name())
+		if seen[r] {
+			s.ambiguous = true
+		}
+		seen[r] = true
+		s.paramRoot = append(s.paramRoot, r)
+	}
+	res := g.Signature.Results()
+	if res.Len() == 0 {
+		s.ambiguous = true
+		return s
+	}
+	last := res.At(res.Len() - 1).Type()
+	isErr := isErrorTypeT(last)
+	isBool := last.String() == "bool" && res.Len() == 1
+	if !isErr && !isBool {
+		s.ambiguous = true
+		return s
+	}
+	ps, ok := enumPaths(g, nil, 2048)
+	if !ok {
+		s.ambiguous = true
+		return s
+	}
+	var succ, fail [][]Atom
+	for _, p := range ps {
+		if !p.feasible() {
+			continue
+		}
+		ap := APath{Path: p, Ret: p.Return()}
+		for _, c := range p.Conds {
+			ap.Atoms = append(ap.Atoms, f.atomOf(c.Cond, c.Pol))
+		}
+		ap.Atoms = f.expandAtomsDepth(ap.Atoms, depth+1)
+		if ap.Ret == nil {
+			continue
+		}
+		rv := f.retValOf(&ap, res.Len()-1)
+		switch {
+		case isErr:
+			if isNilConst(rv) {
+				succ = append(succ, ap.Atoms)
+			} else if isFreshErrorV(rv) {
+				fail = append(fail, ap.Atoms)
+			} else {
+				// unknown nil-ness: counts for both (weakens both summaries)
+				succ = append(succ, ap.Atoms)
+				fail = append(fail, ap.Atoms)
+			}
+		case isBool:
+			if c, isC := rv.(*ssa.Const); isC && c.Value != nil {
+				if c.Value.ExactString() == "true" {
+					succ = append(succ, ap.Atoms)
+				} else {
+					fail = append(fail, ap.Atoms)
+				}
+			} else {
+				// the returned condition itself: true side gets the atom, false side its negation
+				succ = append(succ, append(append([]Atom(nil), ap.Atoms...), f.atomOf(rv, true)))
+				fail = append(fail, append(append([]Atom(nil), ap.Atoms...), f.atomOf(rv, false)))
+			}
+		}
+	}
+	s.onSuccess = intersectAtoms(succ)
+	s.onFailure = intersectAtoms(fail)
+	return s
+}
+
+func intersectAtoms(sets [][]Atom) []Atom {
+	if len(sets) == 0 {
+		return nil
+	}
+	key := func(a Atom) string { return fmt.Sprintf("%s|%s|%s|%v", a.Op, a.TA, a.TB, a.Neg) }
+	count := map[string]int{}
+	first := map[string]Atom{}
+	for _, s := range sets {
+		seen := map[string]bool{}
+		for _, a := range s {
+			k := key(a)
+			if !seen[k] {
+				seen[k] = true
+				count[k]++
+				first[k] = a
+			}
+		}
+	}
+	var out []Atom
+	for k, n := range count {
+		if n == len(sets) {
+			out = append(out, first[k])
+		}
+	}
+	sort.Slice(out, func(i, j int) bool { return key(out[i]) < key(out[j]) })
+	return out
+}
+
+func isErrorTypeT(t types.Type) bool {
+	n, ok := t.(*types.Named)
+	return ok && n.Obj().Pkg() == nil && n.Obj().Name() == "error"
+}
+
+func isFreshErrorV(v ssa.Value) bool {
+	switch x := v.(type) {
+	case *ssa.Call:
+		switch calleeName(x) {
+		case "fmt.Errorf", "errors.New", "errors.Join":
+			return true
+		}
+	case *ssa.UnOp:
+		if _, ok := x.X.(*ssa.Global); ok && x.Op == token.MUL {
+			return true
+		}
+	case *ssa.MakeInterface:
+		return true
+	}
+	return false
+}
+
+// retValOf: like retVal in rules_c06 (kept here to avoid a dependency cycle in reading order).
+func (f *Facts) retValOf(ap *APath, i int) ssa.Value {
+	return f.retVal(ap, i)
+}
+
+// expandAtoms adds, for every atom that tests the outcome of a module function call, the callee's summary
+// instantiated with the call's arguments.
+func (f *Facts) expandAtoms(atoms []Atom) []Atom { return f.expandAtomsDepth(atoms, 0) }
+
+func (f *Facts) expandAtomsDepth(atoms []Atom, depth int) []Atom {
+	if depth > 2 {
+		return atoms
+	}
+	out := atoms
+	for _, a := range atoms {
+		var call *ssa.Call
+		success := false
+		switch {
+		case a.Op == "NIL":
+			x, _, ok := nilTest(a.Cond)
+			if !ok {
+				continue
+			}
+			switch y := x.(type) {
+			case *ssa.Call:
+				call = y
+			case *ssa.Extract:
+				if c, isC := y.Tuple.(*ssa.Call); isC && y.Index == c.Call.Signature().Results().Len()-1 {
+					call = c
+				}
+			case *ssa.UnOp:
+				// a load of the variable the error was stored into (same block): find the stored call
+				if cell := f.ownerCell(y.X); cell != nil {
+					for _, s := range f.storesToCell(cell) {
+						switch z := s.(type) {
+						case *ssa.Call:
+							call = z
+						case *ssa.Extract:
+							if c, isC := z.Tuple.(*ssa.Call); isC {
+								call = c
+							}
+						}
+					}
+					if len(f.storesToCell(cell)) != 1 {
+						call = nil
+					}
+				}
+			}
+			if call != nil && !isErrorTypeT(call.Call.Signature().Results().At(call.Call.Signature().Results().Len()-1).Type()) {
+				call = nil
+			}
+			success = !a.Neg
+		case strings.HasPrefix(a.Op, "CALL:"):
+			v := a.Cond
+			for {
+				u, ok := v.(*ssa.UnOp)
+				if !ok || u.Op != token.NOT {
+					break
+				}
+				v = u.X
+			}
+			call, _ = v.(*ssa.Call)
+			success = !a.Neg
+		}
+		if call == nil {
+			continue
+		}
+		g := calleeOf(call)
+		if g == nil || g.Blocks == nil || g.Pkg == nil || !isModulePath(g.Pkg.Pkg.Path()) || isMockPath(g.Pkg.Pkg.Path()) {
+			continue
+		}
+		s := f.summaryOf(g, depth)
+		if s.ambiguous {
+			continue
+		}
+		facts := s.onSuccess
+		if !success {
+			facts = s.onFailure
+		}
+		args := call.Call.Args
+		for _, fa := range facts {
+			na := fa
+			na.TA = substParams(fa.TA, s.paramRoot, args, f, true)
+			na.TB = substParams(fa.TB, s.paramRoot, args, f, true)
+			// the identity form of the access path in the caller (so that nil-guards found in a helper
+			// discharge dereferences of the same path in the caller)
+			na.A = substParams(fa.TA, s.paramRoot, args, f, false)
+			na.B = substParams(fa.TB, s.paramRoot, args, f, false)
+			out = append(out, na)
+		}
+	}
+	return out
+}
+
+func substParams(t string, roots []string, args []ssa.Value, f *Facts, typed bool) string {
+	if t == "" {
+		return t
+	}
+	for i, r := range roots {
+		if i < len(args) && strings.Contains(t, r) {
+			p := f.path(args[i])
+			if typed {
+				p = f.T(p)
+			}
+			t = strings.ReplaceAll(t, r, p)
+		}
+	}
+	return t
 }
